@@ -38,15 +38,16 @@ func genCode(t *rapid.T, n int, label string) []byte {
 func genRange(t *rapid.T, n int) ([]byte, []byte) {
 	lo := genCode(t, n, "lo")
 	hi := append([]byte{}, lo...)
-	// hi >= lo: raise the last byte(s)
-	k := rapid.IntRange(0, n-1).Draw(t, "hik")
-	if int(hi[k]) < 255 {
-		hi[k] = byte(rapid.IntRange(int(hi[k]), 255).Draw(t, "hiv"))
-		if hi[k] > lo[k] {
-			for i := k + 1; i < n; i++ {
-				hi[i] = byte(rapid.IntRange(0, 255).Draw(t, "hitail"))
-			}
-		}
+	// Ranges are rectangular, as in Adobe's CMap files (Technical Note
+	// 5014: a range is given per byte position): from a drawn position on
+	// every byte of hi is >= the byte of lo, so hi >= lo also as a number.
+	// Most often only the last byte differs.
+	k := n - 1
+	if rapid.Bool().Draw(t, "wide") {
+		k = rapid.IntRange(0, n-1).Draw(t, "hik")
+	}
+	for i := k; i < n; i++ {
+		hi[i] = byte(rapid.IntRange(int(lo[i]), 255).Draw(t, "hiv"))
 	}
 	return lo, hi
 }
